@@ -82,6 +82,9 @@ func hx(b []byte) string {
 	return hex.EncodeToString(b)
 }
 
+// unhx decodes a hex field.  The returned slice deliberately has SPARE CAPACITY filled with garbage
+// (0xA5…): code under test that re-slices an argument beyond its length, or appends into a caller's
+// backing array, then behaves observably differently from code that respects len().
 func unhx(s string) []byte {
 	if s == "-" {
 		return nil
@@ -90,7 +93,12 @@ func unhx(s string) []byte {
 	if err != nil {
 		panic("bad hex in case line: " + s)
 	}
-	return b
+	buf := make([]byte, len(b)+48)
+	for i := range buf {
+		buf[i] = 0xA5 ^ byte(i*7)
+	}
+	copy(buf, b)
+	return buf[:len(b)]
 }
 
 func atoi(s string) int {
